@@ -240,7 +240,32 @@ async def sink_a(req, resp, **kw):
     apply_plan(req, resp)
 
 
+GATES = ('na', 'forbidden', 'err', 'status')
+
+
+def _gate(kind):
+    """The other component rejects the request; every rejection carries an Allow header."""
+    if kind == 'na':
+        raise falcon.HTTPMethodNotAllowed(('GET', 'HEAD'))          # e.g. a read-only gate
+    if kind == 'forbidden':
+        raise falcon.HTTPForbidden(title='gate', headers={'Allow': 'GET'})
+    if kind == 'err':
+        raise falcon.HTTPError(falcon.HTTP_409, title='gate', headers={'Allow': 'GET, POST'})
+    if kind == 'status':
+        raise falcon.HTTPStatus(falcon.HTTP_200, headers={'Allow': 'GET'})
+
+
+def _other_resource(req, resp, resource):
+    resp.set_header('X-Other-Resource', type(resource).__name__)
+    kind = req.get_param('rg')
+    if kind:
+        _gate(kind)
+
+
 def _other_request(req, resp):
+    kind = req.get_param('qg')
+    if kind:
+        _gate(kind)
     if req.path.startswith('/sc/'):
         resp.complete = True
         resp.text = 'short-circuit'
@@ -257,7 +282,7 @@ class OtherW:
         _other_request(req, resp)
 
     def process_resource(self, req, resp, resource, params):
-        resp.set_header('X-Other-Resource', type(resource).__name__)
+        _other_resource(req, resp, resource)
 
     def process_response(self, req, resp, resource, req_succeeded):
         resp.set_header('X-Other', 'ok' if req_succeeded else 'failed')
@@ -268,7 +293,7 @@ class OtherA:
         _other_request(req, resp)
 
     async def process_resource(self, req, resp, resource, params):
-        resp.set_header('X-Other-Resource', type(resource).__name__)
+        _other_resource(req, resp, resource)
 
     async def process_response(self, req, resp, resource, req_succeeded):
         resp.set_header('X-Other', 'ok' if req_succeeded else 'failed')
@@ -344,8 +369,11 @@ class Target:
         self.allow_expected = allow_expected
         self.needs_other = needs_other
         self.fixed_success = fixed_success
+        self.undetermined = name.endswith('-status')
 
     def success(self, method):
+        if self.undetermined:
+            return None
         if self.fixed_success is not None:
             return self.fixed_success
         if self.ok_methods is not None and method not in self.ok_methods:
@@ -378,6 +406,14 @@ OTHER_TARGETS = [
     Target('sc-noallow', '/sc/noallow', needs_other=True, fixed_success=True),
     Target('deny', '/deny/x', needs_other=True, fixed_success=False),
 ]
+# the other component raises in process_request (qg: before routing) / process_resource (rg: after routing)
+for _g in GATES:
+    _ok = None if _g == 'status' else False      # HTTPStatus: success not fixed by the statement
+    OTHER_TARGETS.append(Target('qgate-' + _g, '/auto', 'qg=' + _g, needs_other=True, fixed_success=_ok))
+    OTHER_TARGETS.append(Target('rgate-' + _g, '/auto', 'rg=' + _g, needs_other=True, fixed_success=_ok))
+OTHER_TARGETS.append(Target('qgate-unrouted', '/nowhere', 'qg=na', needs_other=True, fixed_success=False))
+OTHER_TARGETS.append(Target('qgate-noallow-route', '/plan', 'p=1&qg=na', needs_other=True, fixed_success=False))
+OTHER_TARGETS.append(Target('rgate-noallow-route', '/plan', 'p=1&rg=forbidden', needs_other=True, fixed_success=False))
 
 
 def all_targets():
@@ -445,7 +481,7 @@ def check_exchange(rec, bench, fw, ctx, app, cfg, policy, target, shape, origin,
     method, acrm, acrh = shape
     success = target.success(method)
     live = True
-    if ctx == 'after-dep' and target.name == 'deny':
+    if ctx == 'after-dep' and (target.name == 'deny' or target.name.startswith('qgate')):
         # dependent middleware: a component whose process_request never ran has no process_response (documented)
         live = False
     ex = M.Exchange(origin, method, acrm, acrh, success, live=live, allow_expected=target.allow_expected)
@@ -480,6 +516,11 @@ def check_exchange(rec, bench, fw, ctx, app, cfg, policy, target, shape, origin,
             rec.count('pf.refused-expected')
             if M.ac_items(base[1]):
                 rec.count('pf.refused-with-preset')
+    if ex.preflight and policy.allowed(origin) and success is False and M.values(base[1], M.ALLOW):
+        stage = ('mw-request' if target.name.startswith(('qgate', 'deny')) else
+                 'mw-resource' if target.name.startswith('rgate') else 'responder')
+        rec.count('pf.failed-with-allow.' + stage)
+        rec.count('pf.failed-with-allow.%s.%s' % (stage, fw))
     if policy.allowed(origin) and M.values(base[1], M.ACAO):
         rec.count('cell.responder-preset-origin')
     if origin is not None and not policy.allowed(origin) and M.ac_items(base[1]):
@@ -838,8 +879,12 @@ def run(rec):
         ('fw.wsgi', 40000), ('fw.asgi', 40000), ('enable.exchanges', 5000),
         ('tgt.auto', 100), ('tgt.plan', 500), ('tgt.sink', 200), ('tgt.static', 60), ('tgt.unrouted', 60),
         ('tgt.sc-allow', 30), ('tgt.sc-noallow', 30), ('tgt.deny', 30),
+        ('tgt.qgate-unrouted', 30), ('tgt.qgate-noallow-route', 30), ('tgt.rgate-noallow-route', 30),
         ('random.configs', 32), ('random.exchanges', 1900),
-    ] + [('ctx.' + c, 8000) for c in CONTEXTS_ALONE] + [('ctx.' + c, 2000) for c in CONTEXTS_OTHER] + \
+    ] + [('tgt.%sgate-%s' % (st, g), 30) for st in 'qr' for g in GATES] + \
+            [('pf.failed-with-allow.%s.%s' % (st, fw), 500) for st in ('mw-request', 'mw-resource', 'responder')
+             for fw in ('wsgi', 'asgi')] + \
+            [('ctx.' + c, 8000) for c in CONTEXTS_ALONE] + [('ctx.' + c, 2000) for c in CONTEXTS_OTHER] + \
             [('ctx.' + c, 1000) for c in CONTEXTS_ENABLE]:
         rec.floor(name, n)
     if rec.counters.get('model.success-mismatch'):
